@@ -772,6 +772,7 @@ class LatexParser:
         self.toks = normalise_scripts(latex_tokens(s)) + ["<end>", "<end>", "<end>", "<end>"]
         self.i = 0
         self.unknown: list[str] = []
+        self.in_integral = 0       # > 0 while reading an integrand: products end at the closing "\, d x"
 
     # -- token helpers --------------------------------------------------------------------------
     def skip_space(self):
@@ -829,10 +830,16 @@ class LatexParser:
                 break
         return terms[0] if len(terms) == 1 else ("add", terms)
 
-    def product(self, stop_at_differential: bool = False):
+    def body(self):
+        """operand of \\sum \\prod \\int d/dx: the product to the right, possibly signed (\\sum_i - a)."""
+        if self.accept("-"):
+            return ("neg", self.product())
+        return self.product()
+
+    def product(self):
         fs = [self.factor()]
         while True:
-            if stop_at_differential and self._at_differential():
+            if self.in_integral and self._at_differential():
                 break
             t = self.peek()
             if t in ("\\cdot", "\\times"):
@@ -1002,11 +1009,25 @@ class LatexParser:
         if t in ("\\Delta", "\\delta"):
             return ("fn", "Delta" if t == "\\Delta" else "delta", [self.factor()])
         if t in ("\\sum", "\\prod"):
+            # \sum_i body (index of indexed symbols)  |  \sum_{k=lo}^{hi} body; the body is the product to the right
+            name = "Sum" if t == "\\sum" else "Product"
             self.expect("_")
-            idx = self.script()
-            if self.peek() == "^":
-                raise Outside("latex: sum with upper limit")
-            return ("fn", "Sum" if t == "\\sum" else "Product", [self.product(), idx])
+            lo = None
+            if self.accept("{"):
+                idx = self.sum()
+                if self.accept("="):
+                    lo = self.sum()
+                self.expect("}")
+            else:
+                idx = self.atom()
+            if self.accept("^"):
+                if lo is None:
+                    raise Outside("latex: sum with an upper limit only")
+                hi = self.script()
+                return ("fn", name, [self.body(), ("fn", "tuple", [idx, lo, hi])])
+            if lo is not None:
+                raise Outside("latex: sum with a lower limit only")
+            return ("fn", name, [self.body(), idx])
         if t == "\\int":
             self.accept("\\limits")
             lo = hi = None
@@ -1015,9 +1036,13 @@ class LatexParser:
                     lo = self.script()
                 else:
                     hi = self.script()
-            body = self.product(stop_at_differential=True)
+            self.in_integral += 1
+            try:
+                body = self.body()
+            finally:
+                self.in_integral -= 1
             self.expect("d")
-            var = self.atom()
+            var = self.factor()        # a script after the variable belongs to the variable: d t^{2} is d(t^2)
             if (lo is None) != (hi is None):
                 raise Outside("latex: half-open integral limits")
             return ("fn", "Integral", [body, var if lo is None else ("fn", "tuple", [var, lo, hi])])
@@ -1101,7 +1126,7 @@ class LatexParser:
                     raise Outside("latex: mixed derivative")
                 self.expect("}")
                 # a differential operator acts on the product to its right (as \sum and \int do)
-                body = self.product()
+                body = self.body()
                 arg = var if order is None else ("fn", "tuple", [var, ("num", int(order), 1)])
                 return ("fn", "Derivative", [body, arg])
         self.expect("{")
